@@ -9,20 +9,33 @@ VARIABLES pending,             \* "out" telegrams queued and not yet handed to t
           inflight,            \* telegram currently inside interface.send_cemi (0: none)
           lastStart,           \* time the previous send started (-1: none)
           sent,                \* history: telegrams handed to the interface, in order
-          processed            \* telegrams processed by devices / callbacks
-vars == <<pending, open, inflight, lastStart, sent, processed>>
-Init == pending = <<>> /\ open = {} /\ inflight = 0 /\ lastStart = -1 /\ sent = <<>> /\ processed = {}
+          processed,           \* telegrams processed by devices / callbacks
+          awaiting,            \* telegram handed over and accepted by the interface whose L_Data.con has not arrived (0: none)
+          awaitSince,          \* ... since when
+          confirmed            \* an L_Data.con arrived while the telegram was inside send_cemi
+vars == <<pending, open, inflight, lastStart, sent, processed, awaiting, awaitSince, confirmed>>
+CONFIRMATION_TIMEOUT == 3000
+Init == pending = <<>> /\ open = {} /\ inflight = 0 /\ lastStart = -1 /\ sent = <<>> /\ processed = {} /\ awaiting = 0 /\ awaitSince = 0 /\ confirmed = FALSE
 Put(id, kind) == /\ open' = open \cup {id}
                  /\ pending' = IF kind = "out" THEN Append(pending, id) ELSE pending
-                 /\ UNCHANGED <<inflight, lastStart, sent, processed>>
+                 /\ UNCHANGED <<inflight, lastStart, sent, processed, awaiting, awaitSince, confirmed>>
 SpacingOk(t) == Rate > 0 /\ lastStart # -1 => (t - lastStart) * Rate >= 1000
 StartSend(id, t) == /\ inflight = 0 /\ pending # <<>> /\ id = Head(pending)      \* queue order, one at a time
+                    /\ (awaiting = 0 \/ t >= awaitSince + CONFIRMATION_TIMEOUT)      \* ... the previous one confirmed, or given up after the timeout
                     /\ SpacingOk(t)
                     /\ inflight' = id /\ pending' = Tail(pending) /\ lastStart' = t /\ sent' = Append(sent, id)
-                    /\ UNCHANGED <<open, processed>>
-EndSend(id) == inflight = id /\ id # 0 /\ inflight' = 0 /\ UNCHANGED <<pending, open, lastStart, sent, processed>>
-Process(id) == id \in open /\ processed' = processed \cup {id} /\ UNCHANGED <<pending, open, inflight, lastStart, sent>>
-Done(id) == id \in open /\ id # inflight /\ open' = open \ {id} /\ UNCHANGED <<pending, inflight, lastStart, sent, processed>>
+                    /\ awaiting' = 0 /\ confirmed' = FALSE
+                    /\ UNCHANGED <<open, processed, awaitSince>>
+\* the interface call returns: ok = TRUE: the frame was accepted, its confirmation is awaited unless it already came
+EndSend(id, ok, t) == /\ inflight = id /\ id # 0 /\ inflight' = 0
+                      /\ awaiting' = (IF ok /\ ~confirmed THEN id ELSE 0) /\ awaitSince' = t
+                      /\ UNCHANGED <<pending, open, lastStart, sent, processed, confirmed>>
+\* an L_Data.con arrives (a stale one - nothing handed over, nothing awaited - changes nothing)
+Con == /\ confirmed' = (IF inflight # 0 THEN TRUE ELSE confirmed)
+       /\ awaiting' = 0
+       /\ UNCHANGED <<pending, open, inflight, lastStart, sent, processed, awaitSince>>
+Process(id) == id \in open /\ processed' = processed \cup {id} /\ UNCHANGED <<pending, open, inflight, lastStart, sent, awaiting, awaitSince, confirmed>>
+Done(id) == id \in open /\ id # inflight /\ open' = open \ {id} /\ UNCHANGED <<pending, inflight, lastStart, sent, processed, awaiting, awaitSince, confirmed>>
 \* ---- C33
 SentInQueueOrder == \A a, b \in 1..Len(sent) : a < b => sent[a] < sent[b]
 =============================================================================
